@@ -187,6 +187,22 @@ def normalise_module(module_ast):
             node.test = inner
             node.body, node.orelse = node.orelse, node.body
             n += 1
+    # "t = t op v"  ->  "t op= v"  for a plain name or an attribute chain (same value; the rules are written on the
+    # augmented form)
+    for node in ast.walk(module_ast):
+        for fld in ('body', 'orelse', 'finalbody'):
+            stmts = getattr(node, fld, None)
+            if not isinstance(stmts, list):
+                continue
+            for ix, st in enumerate(stmts):
+                if isinstance(st, ast.Assign) and len(st.targets) == 1 and isinstance(st.targets[0], (ast.Name, ast.Attribute)) \
+                        and isinstance(st.value, ast.BinOp) and ast.dump(st.value.left).replace('Load()', 'Store()') == ast.dump(st.targets[0]).replace('Load()', 'Store()'):
+                    new = ast.copy_location(ast.AugAssign(st.targets[0], st.value.op, st.value.right), st)
+                    new._parent = getattr(st, '_parent', None)
+                    st.targets[0]._parent = new
+                    st.value.right._parent = new
+                    stmts[ix] = new
+                    n += 1
     return n
 
 
